@@ -438,6 +438,17 @@ func sortedKeys[V any](m map[string]V) []string {
 	return ks
 }
 
+// RestartKeeper re-creates the keeper, message server and router over the SAME stores, as a node restart
+// (or another validator holding the same committed state) would: nothing kept in memory survives.
+func (in *Instance) RestartKeeper() {
+	logger := log.NewNopLogger()
+	svc := recService{inner: runtime.NewKVStoreService(in.cctpKey), rec: &in.writes, on: &in.recOn}
+	in.K = keeper.NewKeeper(in.cdc, logger, svc, in.L, in.L)
+	in.msr = baseapp.NewMsgServiceRouter()
+	in.msr.SetInterfaceRegistry(in.reg)
+	types.RegisterMsgServer(in.msr, keeper.NewMsgServerImpl(in.K))
+}
+
 // Reset gives the instance a fresh, empty multistore (keeper, router and codec are reused).
 func (in *Instance) Reset() {
 	logger := log.NewNopLogger()
